@@ -16,7 +16,7 @@ LEVEL_TEXT = ("Static structural proof of necessary conditions: (R13.1) HedSchem
               "storing it; (R13.3) the duplicate-library refusal runs before any schema is loaded, the clashing-name "
               "refusal follows every merge, the duplicate-prefix refusal dominates the group table. Equivalence of "
               "prefixed and unprefixed judgement and 'standard is contained in partnered library' are NOT decided.")
-LEVEL_EXTRA = 'Added after the seeded evaluation: (R13.4) namespace prefixes removed by length, the per-entry prefix established afresh in each iteration; (R13.5) a value stored in a per-object cache of the schema classes depends only on arguments its key depends on. (R13.6) the memoised standard schema is deep-copied before a library is merged into it.'
+LEVEL_EXTRA = 'Added after the seeded evaluation: (R13.4) namespace prefixes removed by length, the per-entry prefix established afresh in each iteration; (R13.5) a value stored in a per-object cache of the schema classes depends only on arguments its key depends on. (R13.6) the memoised standard schema is deep-copied before a library is merged into it. (R13.7) the capitalisation check splits the tag text without its namespace; the duplicate-library refusal is keyed by the library name.'
 
 SCHEMA_RECEIVERS = {"hed_schema", "_hed_schema", "_schema", "schema"}
 USER_PACKAGES = ("hed.validator", "hed.models", "hed.errors")
@@ -200,6 +200,26 @@ def run(ctx):
                           "unprefixed annotation is then judged against standard + library", desc="standard schema deep-copied before the merge")
     ctx.floor("R13.6", "adoptions of a loaded standard schema in SchemaLoader._load", n_adopt, 1)
 
+    # ---------------- R13.7: word-level style checks look at the tag text without its namespace
+    ctx.rule("R13.7", "the capitalisation check splits the tag text without the namespace prefix")
+    tvc = prog.find_class("TagValidator").methods.get("check_capitalization")
+    if tvc is None:
+        raise AnalysisError("anchor TagValidator.check_capitalization vanished")
+    ctx.saw(tvc)
+    from sa.dataflow import ReachingDefs as _RDt, depends_on as _dept
+    rdt = _RDt(tvc)
+    splits = [c for c in walk_no_nested(tvc.node) if isinstance(c, ast.Call) and isinstance(c.func, ast.Attribute) and c.func.attr == "split"
+              and c.args and isinstance(c.args[0], ast.Constant) and c.args[0].value == "/"]
+    ctx.floor("R13.7", "path splits in check_capitalization", len(splits), 1)
+    for c in splits:
+        recv = c.func.value
+        spelled = any(isinstance(x, ast.Attribute) and x.attr in ("org_base_tag", "org_tag", "tag") for x in ast.walk(recv))
+        ns = _dept(rdt, recv, c, lambda y: isinstance(y, ast.Attribute) and y.attr in ("schema_namespace", "_namespace"))
+        ctx.check((not spelled) or ns, "R13.7", tvc.qualname, c, loc(tvc, c),
+                  "the words of the tag are taken from `%s`, which still starts with the namespace (`sc:`): `sc:2d-shape` draws a "
+                  "STYLE_WARNING that `2d-shape` does not draw against the library alone, and a capitalised prefix (`Sc:red`) hides the "
+                  "warning" % norm(recv)[:40], desc="capitalisation check strips the namespace")
+
     # ---------------- R13.3
     io = prog.find_module("schema.hed_schema_io")
     lsv = io.functions.get("load_schema_version")
@@ -237,11 +257,24 @@ def run(ctx):
     ctx.floor("R13.3", "appends in parse_version_list", len(appends), 1)
     for a in appends:
         recv = [norm(c.func.value) for c in vp.node_calls(a) if isinstance(c.func, ast.Attribute) and c.func.attr == "append"]
-        g = vp.guard_for(a, lambda t, recv=recv: isinstance(t, ast.Compare) and any(isinstance(o, ast.In) for o in t.ops)
-                         and norm(t.comparators[0]) in recv, want_leave=("raise",))
+        g = vp.guard_for(a, lambda t, recv=recv: any(isinstance(x, ast.Compare) and any(isinstance(o, ast.In) for o in x.ops)
+                                                     and norm(x.comparators[0]) in recv for x in ast.walk(t)), want_leave=("raise",))
         ctx.check(g is not None, "R13.3", pvl.qualname, a.ast, loc(pvl, a.ast),
                   "a version is recorded without the 'already listed under this prefix' test and its raise",
                   desc="duplicate library refused before it is recorded")
+    # "the same library" is decided on the library *name*, not on name_version
+    from sa.dataflow import ReachingDefs as _RD13, depends_on as _dep13
+    rdp13 = _RD13(pvl)
+    is_name_split = lambda y: isinstance(y, ast.Call) and isinstance(y.func, ast.Attribute) and y.func.attr in ("rpartition", "partition", "split", "rsplit") \
+        and y.args and isinstance(y.args[0], ast.Constant) and y.args[0].value == "_"
+    for a in appends:
+        g = vp.guard_for(a, lambda t: any(isinstance(x, ast.Compare) and any(isinstance(o, ast.In) for o in x.ops) for x in ast.walk(t)),
+                         want_leave=("raise",))
+        ok = g is not None and _dep13(rdp13, g[0].ast, g[0].ast, is_name_split)
+        ctx.check(ok, "R13.3", pvl.qualname, "library-name key of the duplicate test", loc(pvl, a.ast),
+                  "the 'already loaded' test compares the whole `library_x.y.z` text: `['testlib_2.0.0', 'testlib_3.0.0']` (the same library "
+                  "twice, two versions) is merged into one schema with library=\"testlib,testlib\" instead of being refused",
+                  desc="duplicate-library test keyed by the library name")
     # the grouping key (namespace prefix of the entry) is established afresh in every iteration
     from sa.dataflow import defs_of_node
     for a in appends:
